@@ -12,7 +12,7 @@ RULE = ("one evaluation = one well-formed tree encoded by WriteEncoder and decod
         "non-trivial = has attribute/child/content and uses a non-token string or a size/list boundary class; distinct by tree hash")
 ASSUMPTIONS = ["inputs are well-formed per the quantifier (non-empty Latin-1 strings not ending in '@', reserved words excluded)",
                "ProtocolTreeNode.__eq__ is not used as oracle; it is only required to answer True for trees found equal"]
-REQUIRED = ["stream_end_frames", "trees_scribbled", "roundtrips", "layer_roundtrips", "feature:bin31", "feature:bin20", "feature:list16", "feature:hdr16",
+REQUIRED = ["sibling_trees", "stream_end_frames", "trees_scribbled", "roundtrips", "layer_roundtrips", "feature:bin31", "feature:bin20", "feature:list16", "feature:hdr16",
             "feature:s:token2", "feature:s:jid", "feature:s:nibble<128", "feature:s:hex<128"]
 TIMEOUT = {"quick": 900, "thorough": 7200}
 
@@ -55,7 +55,46 @@ def coder_pair():
     return _layers
 
 
-def check_tree(acc, cid, tree, enc, dec, via_layer=True):
+def sibling_of(tree, n):
+    """A tree that equals `tree` in tag, attributes, data, number of children and first child, and differs further down: in a later
+    child, or inside the last child's subtree (another attribute value, another payload)."""
+    tag, attrs, kids, data = tree
+    if not kids:
+        return None
+    kids = list(kids)
+    i = len(kids) - 1
+    if i == 0:
+        # only one child: change something below it (its first grandchild stays as it is where there are several)
+        sub = sibling_of(kids[0], n)
+        if sub is None:
+            return None
+        kids[0] = sub
+        return (tag, attrs, kids, data)
+    ktag, kattrs, kkids, kdata = kids[i]
+    if n % 2 == 0:
+        kattrs = dict(kattrs, **{"sib": "v%d" % (n % 7)})
+    elif kdata is not None:
+        kdata = bytes(kdata) + b"~" if isinstance(kdata, (bytes, bytearray)) else kdata + "~"
+    elif not kkids:
+        kdata = b"sib"
+    else:
+        kattrs = dict(kattrs, **{"sib": "w"})
+    kids[i] = (ktag, kattrs, kkids, kdata)
+    return (tag, attrs, kids, data)
+
+
+def check_tree(acc, cid, tree, enc, dec, via_layer=True, _sibling=False):
+    if not _sibling and _scribble_counter[0] % 5 == 0:
+        # right after this tree, on the same encoder / decoder / layers: a sibling that differs only further down
+        sib = sibling_of(tree, _scribble_counter[0])
+        if sib is not None and len(repr(tree)) < 20000:
+            _check_tree(acc, cid, tree, enc, dec, via_layer)
+            acc.count("sibling_trees")
+            return _check_tree(acc, cid + "/sibling", sib, enc, dec, via_layer)
+    return _check_tree(acc, cid, tree, enc, dec, via_layer)
+
+
+def _check_tree(acc, cid, tree, enc, dec, via_layer=True):
     node = treeeq.to_node(tree)
     feats = trees.features(tree)
     for f in feats:
@@ -201,6 +240,18 @@ def replay(spec, acc):
     td = TokenDictionary()
     enc, dec = WriteEncoder(td), ReadDecoder(td)
     cid = spec["witness"]["case"]
+    sib = cid.endswith("/sibling")
+    if sib:
+        cid = cid[:-len("/sibling")]
+        orig_check = globals()["check_tree"]
+
+        def with_siblings(acc_, cid_, tree_, enc_, dec_, via_layer=True):
+            _check_tree(acc_, cid_, tree_, enc_, dec_, via_layer)
+            for n in (0, 1):
+                s_ = sibling_of(tree_, n)
+                if s_ is not None:
+                    _check_tree(acc_, cid_ + "/sibling", s_, enc_, dec_, via_layer)
+        globals()["check_tree"] = with_siblings
     if cid.startswith("sweep/"):
         for c, tree in trees.sweep():
             if "sweep/" + c == cid:
